@@ -2,7 +2,10 @@ package main
 
 import "time"
 
+const poly = "github.com/TimothyStiles/poly/"
+
 func init() {
 	m := time.Minute
-	specs["C12"] = spec{BudgetQuick: 5 * m, BudgetThorough: 30 * m, Design: "§5 C12"}
+	specs["C12"] = spec{BudgetQuick: 5 * m, BudgetThorough: 30 * m}
+	specs["C09"] = spec{Instr: map[string]string{poly + "clone": "sched"}, Procs: 1, BudgetQuick: 4 * m, BudgetThorough: 20 * m}
 }
